@@ -1,6 +1,579 @@
-/- Helper lemmas for LC/Props/C11.lean. TO BE PROVED (no sorry may remain). -/
+/-
+Helper lemmas for LC/Props/C11.lean: the output loop of `Normalize` (`render`)
+puts the words of line k on output line k, and the non-normalizing tokenizer
+produces token lists of the shape `render` needs.
+Core Lean only.
+-/
 import LC.Model.V2Tok
 import LC.Spec.TokSpec
 namespace LC.V2Tok
 open LC.Utf8
+
+/-! ### splitLines -/
+
+theorem splitLines_ne_nil (rs : List Rune) : splitLines rs ≠ [] := by
+  cases rs with
+  | nil => simp [splitLines]
+  | cons c rs =>
+    simp only [splitLines, List.foldr_cons]
+    split
+    · simp
+    · split <;> simp
+
+theorem splitLines_nl (rs : List Rune) : splitLines (nl :: rs) = [] :: splitLines rs := by
+  simp [splitLines]
+
+theorem splitLines_cons (c : Rune) (rs : List Rune) (h : c ≠ nl) :
+    splitLines (c :: rs) = (c :: (splitLines rs).headD []) :: (splitLines rs).tail := by
+  simp only [splitLines, List.foldr_cons, if_neg h]
+  generalize List.foldr _ _ rs = l
+  cases l <;> simp
+
+theorem splitLines_append (w rs : List Rune) (h : nl ∉ w) :
+    splitLines (w ++ rs) = (w ++ (splitLines rs).headD []) :: (splitLines rs).tail := by
+  induction w with
+  | nil =>
+    have := splitLines_ne_nil rs
+    cases hs : splitLines rs with
+    | nil => exact absurd hs this
+    | cons a l => simp [hs]
+  | cons c w ih =>
+    have hc : c ≠ nl := fun e => h (by simp [e])
+    have hw : nl ∉ w := fun e => h (by simp [e])
+    rw [List.cons_append, splitLines_cons _ _ hc, ih hw]
+    simp
+
+theorem getD_succ_tail (l : List (List Rune)) (j : Nat) : l.getD (j + 1) [] = l.tail.getD j [] := by
+  cases l <;> simp
+
+theorem getD_zero_headD (l : List (List Rune)) : l.getD 0 [] = l.headD [] := by
+  cases l <;> simp
+
+/-! ### words of a line -/
+
+/-- the words that follow the first word of a line, each preceded by a blank -/
+def contWords : List Word → List Rune
+  | [] => []
+  | w :: ws => 32 :: (w ++ contWords ws)
+
+theorem joinBlank_cons (w : Word) (ws : List Word) : joinBlank (w :: ws) = w ++ contWords ws := by
+  induction ws generalizing w with
+  | nil => simp [joinBlank, contWords]
+  | cons v vs ih =>
+    show w ++ 32 :: joinBlank (v :: vs) = _
+    rw [ih]; simp [contWords]
+
+theorem wordsOnLine_cons (t : Tok) (ts : List Tok) (k : Nat) :
+    wordsOnLine (t :: ts) k =
+      if t.line = k ∧ t.word ≠ [nl] then t.word :: wordsOnLine ts k else wordsOnLine ts k := by
+  simp only [wordsOnLine, List.filter_cons]
+  by_cases h : t.line = k ∧ t.word ≠ [nl]
+  · simp [h]
+  · rw [if_neg h, if_neg]
+    simpa using h
+
+theorem stepOne_le {p : Nat} {ts : List Tok} (h : StepOne p ts) : ∀ t ∈ ts, p ≤ t.line := by
+  induction ts generalizing p with
+  | nil => simp
+  | cons a ts ih =>
+    intro t ht
+    obtain ⟨h1, h2⟩ := h
+    rcases List.mem_cons.1 ht with rfl | ht
+    · omega
+    · have := ih h2 t ht; omega
+
+theorem wordsOnLine_nil {ts : List Tok} {k : Nat} (h : ∀ t ∈ ts, k < t.line) :
+    wordsOnLine ts k = [] := by
+  simp only [wordsOnLine, List.map_eq_nil_iff, List.filter_eq_nil_iff]
+  intro t ht
+  have := h t ht
+  simp; omega
+
+theorem eolLast_tail {a : Tok} {ts : List Tok} (h : EolLast (a :: ts)) : EolLast ts := by
+  cases ts with
+  | nil => trivial
+  | cons b ts => exact h.2
+
+/-- after an EOL token the remaining tokens are on later lines -/
+theorem eol_next {a : Tok} {ts : List Tok} (h : EolLast (a :: ts)) (ha : a.word = [nl])
+    (hs : StepOne a.line ts) : ∀ t ∈ ts, a.line < t.line := by
+  cases ts with
+  | nil => simp
+  | cons b ts =>
+    have hb := h.1 ha
+    intro t ht
+    have := stepOne_le (p := a.line + 1) (ts := b :: ts) ⟨Or.inl hb, hs.2⟩ t ht
+    omega
+
+/-! ### the output loop -/
+
+theorem renderLoop_cons (prev : Nat) (t : Tok) (ts : List Tok) :
+    renderLoop prev (t :: ts) =
+      (if t.line = prev + 1 then [nl] else []) ++
+      (if t.word ≠ [nl] then (if t.line = prev then [32] else []) ++ t.word else []) ++
+      renderLoop t.line ts := rfl
+
+/-- The first output line of `renderLoop prev ts` continues line `prev`; the output line `j + 1`
+holds the words of line `prev + 1 + j`. -/
+theorem renderLoop_lines (ts : List Tok) : ∀ prev, StepOne prev ts → EolLast ts →
+    (∀ t ∈ ts, t.word = [nl] ∨ nl ∉ t.word) →
+    (splitLines (renderLoop prev ts)).headD [] = contWords (wordsOnLine ts prev) ∧
+    ∀ j, (splitLines (renderLoop prev ts)).tail.getD j [] =
+      joinBlank (wordsOnLine ts (prev + 1 + j)) := by
+  induction ts with
+  | nil =>
+    intro prev _ _ _
+    simp [renderLoop, splitLines, wordsOnLine, contWords, joinBlank]
+  | cons t ts ih =>
+    intro prev hs he hw
+    obtain ⟨hl, hs'⟩ := hs
+    have he' := eolLast_tail he
+    have hw' : ∀ t ∈ ts, t.word = [nl] ∨ nl ∉ t.word := fun u hu => hw u (by simp [hu])
+    obtain ⟨ih0, ihj⟩ := ih t.line hs' he' hw'
+    have hge := stepOne_le hs'
+    rw [renderLoop_cons]
+    rcases hl with hl | hl
+    · -- same line
+      have hne : ¬ t.line = prev + 1 := by omega
+      rw [if_neg hne]
+      replace ih0 : (splitLines (renderLoop t.line ts)).headD [] = contWords (wordsOnLine ts prev) :=
+        hl ▸ ih0
+      replace ihj : ∀ j, (splitLines (renderLoop t.line ts)).tail.getD j [] =
+          joinBlank (wordsOnLine ts (prev + 1 + j)) := hl ▸ ihj
+      by_cases hnl : t.word = [nl]
+      · simp only [hnl, ne_eq, not_true_eq_false, if_false, List.nil_append, List.append_nil]
+        simp only [wordsOnLine_cons, hnl, ne_eq, not_true_eq_false, and_false, if_false]
+        exact ⟨ih0, ihj⟩
+      · have hnot : nl ∉ t.word := (hw t (by simp)).resolve_left hnl
+        have hnot' : nl ∉ (32 :: t.word) := by
+          intro h
+          rcases List.mem_cons.1 h with h | h
+          · simp [nl] at h
+          · exact hnot h
+        rw [if_pos hnl, if_pos hl]
+        simp only [List.nil_append, List.singleton_append]
+        rw [splitLines_append _ _ hnot']
+        refine ⟨?_, ?_⟩
+        · have : t.line = prev ∧ t.word ≠ [nl] := ⟨hl, hnl⟩
+          simp only [List.headD_cons, wordsOnLine_cons, if_pos this, contWords, ih0, List.cons_append]
+        · intro j
+          have : ¬ (t.line = prev + 1 + j ∧ t.word ≠ [nl]) := by omega
+          simp only [List.tail_cons, wordsOnLine_cons, if_neg this]
+          exact ihj j
+    · -- next line
+      have hne : ¬ t.line = prev := by omega
+      have h0 : wordsOnLine (t :: ts) prev = [] := by
+        apply wordsOnLine_nil
+        intro u hu
+        rcases List.mem_cons.1 hu with rfl | hu
+        · omega
+        · have := hge u hu; omega
+      rw [if_pos hl, h0]
+      by_cases hnl : t.word = [nl]
+      · have hlater := eol_next he hnl hs'
+        have h1 : wordsOnLine ts t.line = [] := wordsOnLine_nil hlater
+        simp only [hnl, ne_eq, not_true_eq_false, if_false, List.append_nil, List.singleton_append]
+        rw [splitLines_nl]
+        refine ⟨by simp [contWords], ?_⟩
+        intro j
+        have : ¬ (t.line = prev + 1 + j ∧ t.word ≠ [nl]) := by simp [hnl]
+        simp only [List.tail_cons, wordsOnLine_cons, if_neg this]
+        cases j with
+        | zero =>
+          rw [getD_zero_headD, ih0, h1, ← hl, h1]
+          simp [contWords, joinBlank]
+        | succ j =>
+          rw [getD_succ_tail, ihj j, hl]
+          congr 2; omega
+      · have hnot : nl ∉ t.word := (hw t (by simp)).resolve_left hnl
+        rw [if_pos hnl, if_neg hne]
+        simp only [List.nil_append, List.cons_append]
+        rw [splitLines_nl, splitLines_append _ _ hnot]
+        refine ⟨by simp [contWords], ?_⟩
+        intro j
+        simp only [List.tail_cons]
+        cases j with
+        | zero =>
+          have : t.line = prev + 1 + 0 ∧ t.word ≠ [nl] := ⟨by omega, hnl⟩
+          simp only [List.getD_cons_zero, wordsOnLine_cons, if_pos this, joinBlank_cons, ih0]
+          rw [← hl]
+        | succ j =>
+          have : ¬ (t.line = prev + 1 + (j + 1) ∧ t.word ≠ [nl]) := by omega
+          simp only [List.getD_cons_succ, wordsOnLine_cons, if_neg this]
+          rw [ihj j, hl]
+          congr 2; omega
+
+/-- ADJUSTED: two extra hypotheses `h1`, `he`; counterexamples in LC/Props/C11.lean. -/
+theorem render_lines' (toks : List Tok) (h2 : 2 ≤ toks.length) (hs : StepOne 1 toks)
+    (h1 : ∀ t, toks.head? = some t → t.line = 1) (he : EolLast toks)
+    (hw : ∀ t ∈ toks, t.word = [nl] ∨ (nl ∉ t.word ∧ t.word ≠ []))
+    (k : Nat) (hk : 1 ≤ k) :
+    (splitLines (render toks)).getD (k - 1) [] = joinBlank (wordsOnLine toks k) := by
+  match toks, h2 with
+  | t :: t2 :: ts, _ =>
+    have ht : t.line = 1 := h1 t rfl
+    have hs' : StepOne 1 (t2 :: ts) := by have := hs.2; rwa [ht] at this
+    have he' : EolLast (t2 :: ts) := eolLast_tail he
+    have hw' : ∀ u ∈ t2 :: ts, u.word = [nl] ∨ nl ∉ u.word := fun u hu =>
+      (hw u (List.mem_cons_of_mem _ hu)).imp id And.left
+    obtain ⟨r0, rj⟩ := renderLoop_lines (t2 :: ts) 1 hs' he' hw'
+    have hr : render (t :: t2 :: ts) =
+        (if t.word ≠ [nl] then t.word else []) ++ renderLoop 1 (t2 :: ts) := rfl
+    rw [hr]
+    by_cases hnl : t.word = [nl]
+    · have hlater := eol_next he hnl hs.2
+      rw [ht] at hlater
+      have h0 : wordsOnLine (t2 :: ts) 1 = [] := wordsOnLine_nil hlater
+      have hno : ∀ k, ¬ (t.line = k ∧ t.word ≠ [nl]) := by simp [hnl]
+      simp only [hnl, ne_eq, not_true_eq_false, if_false, List.nil_append]
+      rw [wordsOnLine_cons, if_neg (hno k)]
+      obtain ⟨j, rfl⟩ : ∃ j, k = j + 1 := ⟨k - 1, by omega⟩
+      cases j with
+      | zero => simp only [Nat.zero_add, Nat.sub_self]; rw [getD_zero_headD, r0, h0]; simp [contWords, joinBlank]
+      | succ j =>
+        simp only [Nat.add_sub_cancel]
+        rw [getD_succ_tail, rj j]
+        congr 2; omega
+    · have hnot : nl ∉ t.word := ((hw t (by simp)).resolve_left hnl).1
+      rw [if_pos hnl, splitLines_append _ _ hnot]
+      obtain ⟨j, rfl⟩ : ∃ j, k = j + 1 := ⟨k - 1, by omega⟩
+      cases j with
+      | zero =>
+        have : t.line = 0 + 1 ∧ t.word ≠ [nl] := ⟨by omega, hnl⟩
+        rw [wordsOnLine_cons, if_pos this]
+        simp only [Nat.add_sub_cancel, List.getD_cons_zero, joinBlank_cons, r0]
+      | succ j =>
+        have : ¬ (t.line = j + 1 + 1 ∧ t.word ≠ [nl]) := by intro h; have := h.1; omega
+        rw [wordsOnLine_cons, if_neg this]
+        simp only [Nat.add_sub_cancel, List.getD_cons_succ]
+        rw [rj j, show 1 + 1 + j = j + 1 + 1 by omega]
+
+/-! ### the tokenizer's token lists -/
+
+/-- Shape of a token list, relative to a predicate `q` marking end-of-line tokens: a token is on
+the line of its predecessor or on the next one, and on the next one if the predecessor is marked
+(`e`: the predecessor is marked, or there is none). -/
+def LineShape (q : Tok → Bool) : Nat → Bool → List Tok → Prop
+  | _, _, [] => True
+  | p, e, t :: ts => (t.line = p + 1 ∨ (e = false ∧ t.line = p)) ∧ LineShape q t.line (q t) ts
+
+def endLine : Nat → List Tok → Nat
+  | p, [] => p
+  | _, t :: ts => endLine t.line ts
+
+def endFlag (q : Tok → Bool) : Bool → List Tok → Bool
+  | e, [] => e
+  | _, t :: ts => endFlag q (q t) ts
+
+theorem endLine_append (p : Nat) (l1 l2 : List Tok) :
+    endLine p (l1 ++ l2) = endLine (endLine p l1) l2 := by
+  induction l1 generalizing p with
+  | nil => rfl
+  | cons t l1 ih => exact ih t.line
+
+theorem good_append (q : Tok → Bool) (p : Nat) (e : Bool) (l1 l2 : List Tok)
+    (h1 : LineShape q p e l1) (h2 : LineShape q (endLine p l1) (endFlag q e l1) l2) :
+    LineShape q p e (l1 ++ l2) := by
+  induction l1 generalizing p e with
+  | nil => exact h2
+  | cons t l1 ih => exact ⟨h1.1, ih t.line (q t) h1.2 h2⟩
+
+/-- a block of unmarked tokens of one line -/
+theorem good_block (q : Tok → Bool) (L : Nat) (ts : List Tok)
+    (hb : ∀ t ∈ ts, t.line = L ∧ q t = false) (p : Nat) (e : Bool)
+    (hp : p + 1 = L ∨ (e = false ∧ p = L)) : LineShape q p e ts := by
+  induction ts generalizing p e with
+  | nil => trivial
+  | cons t ts ih =>
+    obtain ⟨hl, hq⟩ := hb t (by simp)
+    refine ⟨?_, ih (fun u hu => hb u (by simp [hu])) t.line (q t) (Or.inr ⟨hq, hl⟩)⟩
+    rcases hp with hp | hp
+    · left; omega
+    · right; exact ⟨hp.1, by omega⟩
+
+theorem block_end (q : Tok → Bool) (L : Nat) (ts : List Tok)
+    (hb : ∀ t ∈ ts, t.line = L ∧ q t = false) (hne : ts ≠ []) (p : Nat) (e : Bool) :
+    endLine p ts = L ∧ endFlag q e ts = false := by
+  induction ts generalizing p e with
+  | nil => exact absurd rfl hne
+  | cons t ts ih =>
+    cases ts with
+    | nil => exact hb t (by simp)
+    | cons u us => exact ih (fun v hv => hb v (by simp [hv])) (by simp) t.line (q t)
+
+/-- a block of line `L`, then a token of line `L`, after a token list that ends on line `L - 1` -/
+theorem good_line (q : Tok → Bool) (toks blk : List Tok) (x : Tok) (L : Nat)
+    (hg : LineShape q 0 true toks) (hend : endLine 0 toks + 1 = L)
+    (hb : ∀ t ∈ blk, t.line = L ∧ q t = false) (hx : x.line = L) :
+    LineShape q 0 true (toks ++ blk ++ [x]) ∧ endLine 0 (toks ++ blk ++ [x]) = L := by
+  refine ⟨?_, ?_⟩
+  · rw [List.append_assoc]
+    apply good_append _ _ _ _ _ hg
+    by_cases hne : blk = []
+    · subst hne
+      exact ⟨Or.inl (by omega), trivial⟩
+    · apply good_append _ _ _ _ _ (good_block q L blk hb _ _ (Or.inl hend))
+      obtain ⟨h1, h2⟩ := block_end q L blk hb hne (endLine 0 toks) (endFlag q true toks)
+      rw [h1, h2]
+      exact ⟨Or.inr ⟨rfl, hx⟩, trivial⟩
+  · rw [endLine_append]; exact hx
+
+theorem good_tail (q : Tok → Bool) (toks blk : List Tok) (L : Nat)
+    (hg : LineShape q 0 true toks) (hend : endLine 0 toks + 1 = L)
+    (hb : ∀ t ∈ blk, t.line = L ∧ q t = false) : LineShape q 0 true (toks ++ blk) :=
+  good_append _ _ _ _ _ hg (good_block q L blk hb _ _ (Or.inl hend))
+
+theorem good_stepOne (q : Tok → Bool) (p : Nat) (e : Bool) (ts : List Tok) (h : LineShape q p e ts) :
+    StepOne p ts := by
+  induction ts generalizing p e with
+  | nil => trivial
+  | cons t ts ih =>
+    refine ⟨?_, ih _ _ h.2⟩
+    rcases h.1 with h | h
+    · exact Or.inr h
+    · exact Or.inl h.2
+
+theorem good_first (q : Tok → Bool) (ts : List Tok) (h : LineShape q 0 true ts) :
+    StepOne 1 ts ∧ ∀ t, ts.head? = some t → t.line = 1 := by
+  cases ts with
+  | nil => exact ⟨trivial, by simp⟩
+  | cons t ts =>
+    have ht : t.line = 1 := by
+      rcases h.1 with h | h
+      · omega
+      · exact absurd h.1 (by simp)
+    refine ⟨⟨Or.inl ht, good_stepOne q _ _ ts h.2⟩, ?_⟩
+    intro u hu
+    simp at hu
+    rw [← hu]; exact ht
+
+theorem good_eolLast (p : Nat) (e : Bool) (ts : List Tok)
+    (h : LineShape (fun t => t.word == [nl]) p e ts) : EolLast ts := by
+  induction ts generalizing p e with
+  | nil => trivial
+  | cons a ts ih =>
+    cases ts with
+    | nil => trivial
+    | cons b ts =>
+      refine ⟨?_, ih _ _ h.2⟩
+      intro ha
+      rcases h.2.1 with h | h
+      · exact h
+      · simp [ha] at h
+
+/-! ### what the scan appends to the token list -/
+
+/-- a token produced from a buffered line `l` (non-normalizing mode) -/
+def LineTok (E : Env) (l : Nat) (t : Tok) : Prop :=
+  t.line = l ∧ t.word ≠ [] ∧ ∃ i w, t.word = cleanupToken E i w false
+
+theorem processLine_go_tok (E : Env) (l : Nat) (ws : List Word) (i : Nat) :
+    ∀ t ∈ processLine.go E false l ws i, LineTok E l t := by
+  induction ws generalizing i with
+  | nil => simp [processLine.go]
+  | cons w ws ih =>
+    intro t ht
+    simp only [processLine.go] at ht
+    split at ht
+    · exact ih _ t ht
+    · rcases List.mem_cons.1 ht with rfl | ht
+      · exact ⟨rfl, by assumption, i, w, rfl⟩
+      · exact ih _ t ht
+
+theorem appendLine_toks (E : Env) (d : Doc) (l : Nat) (lb : List Word) :
+    ∃ blk, (appendLine E false d l lb).toks = d.toks ++ blk ∧ ∀ t ∈ blk, LineTok E l t := by
+  unfold appendLine
+  split
+  · exact ⟨[], by simp, by simp⟩
+  · split
+    · exact ⟨[], by simp, by simp⟩
+    · rename_i ts hts
+      refine ⟨ts, rfl, ?_⟩
+      unfold processLine at hts
+      split at hts
+      · exact absurd hts (by simp)
+      · injection hts with hts
+        subst hts
+        exact processLine_go_tok E l lb 0
+
+theorem step_nl_toks (E : Env) (s : State)
+    (h : ¬ (s.obuf ≠ [] ∧ s.obuf.getLast? = some hyphen)) :
+    ∃ blk, (step E false s nl).doc.toks = s.doc.toks ++ blk ++ [⟨[nl], s.line⟩] ∧
+      (∀ t ∈ blk, LineTok E s.line t) ∧ (step E false s nl).line = s.line + 1 := by
+  obtain ⟨blk, hb, hp⟩ := appendLine_toks E s.doc s.line
+    (if s.obuf ≠ [] then s.linebuf ++ [flushWord E s.obuf] else s.linebuf)
+  refine ⟨blk, ?_, hp, ?_⟩
+  · unfold step
+    rw [if_pos rfl, if_neg h]
+    simp only [Bool.false_eq_true, if_false]
+    rw [hb, List.append_assoc]
+  · unfold step
+    rw [if_pos rfl, if_neg h]
+
+theorem step_nl_hyphen (E : Env) (s : State)
+    (h : s.obuf ≠ [] ∧ s.obuf.getLast? = some hyphen) :
+    (step E false s nl).deferredEOL = true := by
+  unfold step
+  rw [if_pos rfl, if_pos h]
+
+theorem step_other_doc (E : Env) (s : State) (r : Rune) (hr : r ≠ nl) (hd : s.deferredWord = false) :
+    (step E false s r).doc = s.doc ∧ (step E false s r).line = s.line := by
+  unfold step
+  rw [if_neg hr]
+  simp only [startOrSkip, hd]
+  repeat' split
+  all_goals simp_all
+
+theorem finish_toks (E : Env) (s : State) :
+    ∃ blk, (finish E false s).toks = s.doc.toks ++ blk ∧ ∀ t ∈ blk, LineTok E s.line t :=
+  appendLine_toks E s.doc s.line _
+
+/-! ### the scan invariant -/
+
+def ShapeInv (q : Tok → Bool) (s : State) : Prop :=
+  LineShape q 0 true s.doc.toks ∧ endLine 0 s.doc.toks + 1 = s.line
+
+theorem shape_step_inv (E : Env) (q : Tok → Bool) (hq : ∀ l t, LineTok E l t → q t = false)
+    (s : State) (r : Rune) (hi : ShapeInv q s) (hd : s.deferredWord = false)
+    (hd' : (step E false s r).deferredEOL = false) : ShapeInv q (step E false s r) := by
+  by_cases hr : r = nl
+  · subst hr
+    by_cases h : s.obuf ≠ [] ∧ s.obuf.getLast? = some hyphen
+    · rw [step_nl_hyphen E s h] at hd'
+      exact absurd hd' (by simp)
+    · obtain ⟨blk, ht, hb, hl⟩ := step_nl_toks E s h
+      have := good_line q s.doc.toks blk ⟨[nl], s.line⟩ s.line hi.1 hi.2
+        (fun t ht => ⟨(hb t ht).1, hq _ t (hb t ht)⟩) rfl
+      unfold ShapeInv
+      rw [ht, hl]
+      exact ⟨this.1, by rw [this.2]⟩
+  · obtain ⟨h1, h2⟩ := step_other_doc E s r hr hd
+    unfold ShapeInv
+    rw [h1, h2]
+    exact hi
+
+theorem shape_scan_inv (E : Env) (q : Tok → Bool) (hq : ∀ l t, LineTok E l t → q t = false)
+    (rs : List Rune) : ∀ s, ShapeInv q s →
+    (∀ p, p <+: rs → (p.foldl (step E false) s).deferredEOL = false ∧
+      (p.foldl (step E false) s).deferredWord = false) →
+    ShapeInv q (rs.foldl (step E false) s) := by
+  induction rs with
+  | nil => intro s hi _; exact hi
+  | cons r rs ih =>
+    intro s hi hn
+    have h0 := hn [] (List.nil_prefix)
+    have h1 := hn [r] (by simp [List.cons_prefix_cons])
+    simp only [List.foldl_nil, List.foldl_cons] at h0 h1
+    apply ih (step E false s r) (shape_step_inv E q hq s r hi h0.2 h1.1)
+    intro p hp
+    have := hn (r :: p) (by simpa [List.cons_prefix_cons] using hp)
+    simpa using this
+
+theorem tokenize_good (E : Env) (q : Tok → Bool) (hq : ∀ l t, LineTok E l t → q t = false)
+    (rs : List Rune) (hn : NoDefer E rs) : LineShape q 0 true (tokenizeRunes E false rs).toks := by
+  have hi : ShapeInv q (scanRunes E false rs) :=
+    shape_scan_inv E q hq rs {} ⟨trivial, rfl⟩ (fun p hp => hn p hp)
+  obtain ⟨blk, ht, hb⟩ := finish_toks E (scanRunes E false rs)
+  unfold tokenizeRunes
+  rw [ht]
+  exact good_tail q _ blk _ hi.1 hi.2 (fun t ht => ⟨(hb t ht).1, hq _ t (hb t ht)⟩)
+
+theorem tokenize_stepOne' (E : Env) (rs : List Rune) (hn : NoDefer E rs) :
+    StepOne 1 (tokenizeRunes E false rs).toks :=
+  (good_first _ _ (tokenize_good E (fun _ => false) (fun _ _ _ => rfl) rs hn)).1
+
+/-- the first token of the non-normalizing tokenizer's output is on line 1 -/
+theorem tokenize_first_line' (E : Env) (rs : List Rune) (hn : NoDefer E rs) :
+    ∀ t, (tokenizeRunes E false rs).toks.head? = some t → t.line = 1 :=
+  (good_first _ _ (tokenize_good E (fun _ => false) (fun _ _ _ => rfl) rs hn)).2
+
+/-! ### words of the tokenizer's output (needs `EnvWF`: the newline is neither letter nor digit) -/
+
+theorem nl_not_letter_digit {E : Env} (hE : EnvWF E) : E.isLetter nl = false ∧ E.isDigit nl = false := by
+  have := hE.space_not_starter nl hE.nl_space
+  simp only [Env.starter, Bool.or_eq_false_iff] at this
+  exact ⟨this.1.1.1, this.1.1.2⟩
+
+theorem nl_not_mem_cleanupToken {E : Env} (hE : EnvWF E) (i : Nat) (w : Word) :
+    nl ∉ cleanupToken E i w false := by
+  obtain ⟨hl, hd⟩ := nl_not_letter_digit hE
+  unfold cleanupToken
+  simp only
+  split
+  · simp
+  · split
+    · intro h
+      unfold stripDots at h
+      have h := (List.dropWhile_sublist _).subset (List.mem_reverse.1 h)
+      have h := (List.mem_filter.1 (List.mem_reverse.1 h)).2
+      have e1 : decide (nl = 46) = false := by decide
+      have e2 : decide (nl = 45) = false := by decide
+      simp [hd, e1, e2] at h
+    · intro h
+      simp only [Bool.false_eq_true, if_false] at h
+      have h := (List.mem_filter.1 h).2
+      simp [hl] at h
+
+/-- every token is an EOL token or a non-empty word without newline -/
+def WordOK (t : Tok) : Prop := t.word = [nl] ∨ (nl ∉ t.word ∧ t.word ≠ [])
+
+theorem lineTok_ok {E : Env} (hE : EnvWF E) {l : Nat} {t : Tok} (h : LineTok E l t) :
+    nl ∉ t.word ∧ t.word ≠ [] := by
+  obtain ⟨_, hne, i, w, hw⟩ := h
+  exact ⟨by rw [hw]; exact nl_not_mem_cleanupToken hE i w, hne⟩
+
+theorem lineTok_not_eol {E : Env} (hE : EnvWF E) (l : Nat) (t : Tok) (h : LineTok E l t) :
+    (t.word == [nl]) = false := by
+  have := (lineTok_ok hE h).1
+  cases hb : t.word == [nl]
+  · rfl
+  · rw [beq_iff_eq] at hb
+    exact absurd (by rw [hb]; simp) this
+
+theorem appendLine_ok {E : Env} (hE : EnvWF E) (d : Doc) (l : Nat) (lb : List Word)
+    (h : ∀ t ∈ d.toks, WordOK t) : ∀ t ∈ (appendLine E false d l lb).toks, WordOK t := by
+  obtain ⟨blk, hb, hp⟩ := appendLine_toks E d l lb
+  rw [hb]
+  intro t ht
+  rcases List.mem_append.1 ht with ht | ht
+  · exact h t ht
+  · exact Or.inr (lineTok_ok hE (hp t ht))
+
+theorem step_ok {E : Env} (hE : EnvWF E) (s : State) (r : Rune)
+    (h : ∀ t ∈ s.doc.toks, WordOK t) : ∀ t ∈ (step E false s r).doc.toks, WordOK t := by
+  by_cases hr : r = nl
+  · subst hr
+    by_cases hh : s.obuf ≠ [] ∧ s.obuf.getLast? = some hyphen
+    · unfold step
+      rw [if_pos rfl, if_pos hh]
+      exact h
+    · obtain ⟨blk, ht, hb, _⟩ := step_nl_toks E s hh
+      rw [ht]
+      intro t ht
+      simp only [List.mem_append, List.mem_singleton] at ht
+      rcases ht with (ht | ht) | ht
+      · exact h t ht
+      · exact Or.inr (lineTok_ok hE (hb t ht))
+      · subst ht; exact Or.inl rfl
+  · have ha := appendLine_ok hE s.doc s.line (s.linebuf ++ [flushWord E s.obuf]) h
+    unfold step
+    rw [if_neg hr]
+    simp only [startOrSkip]
+    repeat' split
+    all_goals first | exact h | exact ha
+
+theorem tokenize_words' {E : Env} (hE : EnvWF E) (rs : List Rune) :
+    ∀ t ∈ (tokenizeRunes E false rs).toks, WordOK t := by
+  have : ∀ (rs : List Rune) (s : State), (∀ t ∈ s.doc.toks, WordOK t) →
+      ∀ t ∈ (rs.foldl (step E false) s).doc.toks, WordOK t := by
+    intro rs
+    induction rs with
+    | nil => intro s h; exact h
+    | cons r rs ih => intro s h; exact ih _ (step_ok hE s r h)
+  exact appendLine_ok hE _ _ _ (this rs {} (by simp))
+
+theorem tokenize_eol_last' {E : Env} (hE : EnvWF E) (rs : List Rune) (hn : NoDefer E rs) :
+    EolLast (tokenizeRunes E false rs).toks :=
+  good_eolLast _ _ _ (tokenize_good E _ (lineTok_not_eol hE) rs hn)
+
 end LC.V2Tok
